@@ -174,39 +174,44 @@ structure Aligner (V : Type) where
 def Aligner.init {V : Type} : Aligner V := ⟨[], 0, none⟩
 
 /-- `BlockAligner.add`. -/
-def Aligner.add {V : Type} [RMod V] (a : Aligner V) (start : Int) (samples : List V) :
-    Except AlignErr (Aligner V) := do
+def Aligner.strip {V : Type} (a : Aligner V) (start : Int) (samples : List V) :
+    Except AlignErr (Int × List V) :=
   -- strip off any samples before time 0
-  let (start, samples) ←
-    if start < a.buf_start then
-      if a.buf_start ≠ 0 then throw AlignErr.pastNotAtZero
+  if start < a.buf_start then
+    if a.buf_start ≠ 0 then .error AlignErr.pastNotAtZero
+    else
       let to_discard : Int := min (a.buf_start - start) samples.length
-      pure (start + to_discard, samples.drop to_discard.toNat)
-    else pure (start, samples)
-  let end_ : Int := start + samples.length
-  let start_buf := start - a.buf_start
-  let end_buf := end_ - a.buf_start
-  -- if end_buf > len(self.buf): self.buf.resize(...)   (zero-filled)
-  let buf := if end_buf > a.buf.length then a.buf ++ List.replicate (end_buf.toNat - a.buf.length) 0 else a.buf
-  let buf ←
-    if samples.length ≠ 0 then
-      if ¬ (0 ≤ start_buf ∧ 0 < end_buf) then throw AlignErr.badRange
-      pure (addSlice buf start_buf.toNat samples)
-    else pure buf
-  let first_end := match a.first_end with
-    | none => some end_
-    | some fe => if fe > end_ then some end_ else some fe
-  pure ⟨buf, a.buf_start, first_end⟩
+      .ok (start + to_discard, samples.drop to_discard.toNat)
+  else .ok (start, samples)
+
+def Aligner.add {V : Type} [RMod V] (a : Aligner V) (start : Int) (samples : List V) :
+    Except AlignErr (Aligner V) :=
+  match a.strip start samples with
+  | .error e => .error e
+  | .ok (start, samples) =>
+    let end_ : Int := start + samples.length
+    let start_buf := start - a.buf_start
+    let end_buf := end_ - a.buf_start
+    -- if end_buf > len(self.buf): self.buf.resize(...)   (zero-filled)
+    let buf := if end_buf > a.buf.length then a.buf ++ List.replicate (end_buf.toNat - a.buf.length) 0 else a.buf
+    -- if len(samples): assert 0 <= start_buf and 0 < end_buf; self.buf[start_buf:end_buf] += samples
+    if samples.length ≠ 0 ∧ ¬ (0 ≤ start_buf ∧ 0 < end_buf) then .error AlignErr.badRange
+    else
+      let buf := if samples.length ≠ 0 then addSlice buf start_buf.toNat samples else buf
+      let first_end := match a.first_end with
+        | none => some end_
+        | some fe => if fe > end_ then some end_ else some fe
+      .ok ⟨buf, a.buf_start, first_end⟩
 
 /-- `BlockAligner.get`: returns the completed samples and the new state. -/
 def Aligner.get {V : Type} [RMod V] (a : Aligner V) : Except AlignErr (List V × Aligner V) :=
   match a.first_end with
-  | none => throw AlignErr.noRound
+  | none => .error AlignErr.noRound
   | some fe =>
     let n_samples := (max (fe - a.buf_start) 0).toNat
     let to_return := a.buf.take n_samples
     -- buf[:len-n] = buf[n:]; buf[len-n:] = 0
     let buf := a.buf.drop n_samples ++ List.replicate (a.buf.length - (a.buf.length - n_samples)) 0
-    pure (to_return, ⟨buf, a.buf_start + n_samples, none⟩)
+    .ok (to_return, ⟨buf, a.buf_start + n_samples, none⟩)
 
 end Earverif.Stream
